@@ -263,8 +263,23 @@ def run_det_rule(ctx, ck, rule_set='R-DET.set-order', rule_src='R-DET.no-ambient
     return n_sets
 
 
-def off_by_default_guard(ctx, f, node):
-    """text of an enclosing `if self.<flag>:` whose flag is initialised False and never set True"""
+def off_by_default_guard(ctx, f, node, depth=0):
+    """text of an enclosing `if self.<flag>:` whose flag is initialised False and never set True; a helper that is
+    called only from such guarded places is guarded by them"""
+    g_ = _local_guard(ctx, f, node)
+    if g_ is not None or depth >= 3:
+        return g_
+    sites = [(ctx.model.funcs[q], e.node) for q, es in ctx.program.edges.items() for e in es
+             if e.callee.qual == f.qual and q in ctx.model.funcs]
+    if not sites:
+        return None
+    gs = [off_by_default_guard(ctx, cf, cn, depth + 1) if cn is not None else None for cf, cn in sites]
+    if all(x is not None for x in gs):
+        return gs[0]
+    return None
+
+
+def _local_guard(ctx, f, node):
     m = ctx.model
     p = parent(node)
     child = node
@@ -330,7 +345,19 @@ def check_f_setter(ctx, ck, rule='R-FRESH.setter', with_resets=True):
     for a in sorted(freq_attrs):
         writers = sorted({e.func.qual for q, es in prog.effects.items() for e in es
                           if e.cls == 'Mininec' and e.attr == a and e.mode != 'read'})
-        ck.ob(rule, 'single-writer|%s' % a, writers == [st.qual], st.loc(),
+        # (the setter itself, or private helpers that nothing but the setter calls)
+        only_setter = {st.qual}
+        grown = True
+        while grown:
+            grown = False
+            for w_ in writers:
+                if w_ in only_setter:
+                    continue
+                callers = {q for q, es in prog.edges.items() for e in es if e.callee.qual == w_}
+                if callers and callers <= only_setter and w_.split('.')[-1].startswith('_'):
+                    only_setter.add(w_)
+                    grown = True
+        ck.ob(rule, 'single-writer|%s' % a, bool(writers) and set(writers) <= only_setter, st.loc(),
               'writers of Mininec.%s: %s' % (a, writers))
     # resets must name attributes that some other function reads or writes
     for a, n in (resets if with_resets else []):
